@@ -86,6 +86,25 @@ Theorem C01_ascii_base256_roundtrip : forall sorter data symbols cw s,
 Proof. intros so d sy cw s HS OK H. exact (proj2 (ascii_base256_roundtrip so d sy cw s HS OK H)). Qed.
 Print Assumptions C01_ascii_base256_roundtrip.
 
+(* ... and behind a Macro 05 / 06 codeword or an FNC1 start: the decoder returns the whole message *)
+Theorem C01_macro_ab_roundtrip : forall sorter data symbols modes body m head cw s,
+  (forall k l l', sorter symbols k l = Ok l' -> incl l' l) ->
+  (forall mo, enabled modes mo = true -> mo = Ascii \/ mo = Base256) -> bytes_ok body = true ->
+  (m = 236 /\ head = MACRO05_HEAD) \/ (m = 237 /\ head = MACRO06_HEAD) -> data = head ++ body ++ MACRO_TRAIL ->
+  encode_data_internal (optimize_fn sorter) data symbols None modes true false = Ok (cw, s) ->
+  decode_data cw = Ok data.
+Proof. intros so d sy mo b m h cw s HS HM OK HH HD H. exact (proj2 (macro_ab_roundtrip so d sy mo b m h cw s HS HM OK HH HD H)). Qed.
+Print Assumptions C01_macro_ab_roundtrip.
+
+Theorem C01_fnc1_ab_roundtrip : forall sorter data symbols modes use_macros cw s,
+  (forall k l l', sorter symbols k l = Ok l' -> incl l' l) ->
+  (forall mo, enabled modes mo = true -> mo = Ascii \/ mo = Base256) -> bytes_ok data = true ->
+  encode_data_internal (optimize_fn sorter) data symbols None modes use_macros true = Ok (cw, s) ->
+  decode_data cw = Ok data.
+Proof. intros so d sy mo um cw s HS HM OK H. exact (proj2 (fnc1_ab_roundtrip so d sy mo um cw s HS HM OK H)). Qed.
+Print Assumptions C01_fnc1_ab_roundtrip.
+
+
 (* non-vacuity: with {ASCII, Base256} the optimiser really mixes the two (ASCII, a Base256 field, ASCII digits) *)
 Example C01_ascii_base256_example :
   optimize_fn stable_sorter [72; 105; 200; 201; 202; 203; 204; 49; 50; 51; 52] 0 sl_default 33
